@@ -140,6 +140,24 @@ func init() {
 		Extra: func(run *harness.Run) ([]harness.Finding, map[string]interface{}, []string) {
 			return rtPart(run, "stress", 40, 1500, map[string]int{"C13 commit callbacks judged": 1000, "C13 round callbacks judged": 1000, "C13 state samples": 50000})
 		}})
+	reg(&sim.SimCheck{Prop: "C17", Workload: "c17", Profile: func(th bool) *sim.Profile {
+		p := advProfile(merge(noBare, map[string]int{"support": 25, "crossInstance": 12, "mutate": 15, "corruptNested": 4}), 600, 3)(th)
+		p.SplitHandoff, p.SyncPct, p.MinN = true, 6, 5
+		return p
+	},
+		QuickCases: 3000, ThoroughCases: 60000,
+		NonTrivial: func(r *sim.Result) bool { return r.Stats["C17 handled messages judged"] > 20 && r.Commits > 0 },
+		Rule:       "(a) filter level: operation sequences on the real RawMessageFilter + State with recording per-term handlers (see the filter_* keys); (b) worker level, in sim executions over 3 heights with node syncs, the main-loop -> worker hand-off of syncs and election triggers split into two steps (so a newer sync's context cancellation can overtake an older round start), members that sit out the committee of later heights, support / other-instance traffic sent into lagging nodes' future cache: every message that reaches the protocol logic (a Store* call) must be of the height of the installed term and of a committee the node is a member of, and the observable height must be the installed term's height after every step. non-trivial (b) = more than 20 handled messages judged and a commit",
+		Floors:     map[string]int{"C17 handled messages judged": 100000, "commits": 1200},
+		Judged:     []string{"C17 handled messages judged", "commits", "C13 rounds"},
+		Extra: func(run *harness.Run) ([]harness.Finding, map[string]interface{}, []string) {
+			fs, cov, inc := unit.CheckC17Unit(run)
+			ev := map[string]interface{}{}
+			for k, v := range cov {
+				ev["filter_"+k] = v
+			}
+			return fs, ev, inc
+		}})
 	reg(&sim.SimCheck{Prop: "C18", Workload: "c18", Profile: advProfile(merge(noBare, map[string]int{"hugeView": 10, "vcGames": 15}), 500, 2),
 		QuickCases: 1500, ThoroughCases: 40000,
 		NonTrivial: func(r *sim.Result) bool { return r.Stats["C18 view change destinations judged"] > 3 },
